@@ -4,10 +4,12 @@ package core
 
 // C19 / stream "quota": the elastic-quota manager's pod cache and Used accounting across a restart.
 //
-// input:  NQ  P then P records (quota cpuMilli memBytes)   (pod uid = position; quota in 1..NQ)
+// input:  NQ quotasFirst  P then P records (quota cpuMilli memBytes)   (pod uid = position; quota in 1..NQ)
 //         K live steps (kind uid): 6 created (OnPodAdd pending) 1 ReservePod 2 UnreservePod 3 bind (OnPodUpdate)
 //                                  4 OnPodDelete 5 OnPodUpdate (no change) 7 OnPodUpdate: terminated
 //         S replay events (kind uid): 1 OnPodAdd(stored) 2 OnPodUpdate(stored,stored) 3 OnPodUpdate(stored, pending)
+//             6 q: (quotasFirst = 0) ElasticQuota q arrives; the pods parked for it in the default quota are moved by MigratePod
+//         with quotasFirst = 0 a pod whose quota is not yet known is handled in the default quota, as the plugin does
 // observable after every live step, for the LIVE manager then for a FRESH manager (same quotas) fed
 // with the stored pods: Used cpu, mem of quota 1..NQ (GetQuotaSummaries), then per pod: in PodCache, isAssigned.
 
@@ -20,6 +22,8 @@ import (
 	"k8s.io/apimachinery/pkg/api/resource"
 	metav1 "k8s.io/apimachinery/pkg/apis/meta/v1"
 	"k8s.io/apimachinery/pkg/types"
+
+	"github.com/koordinator-sh/koordinator/apis/extension"
 )
 
 func vtC19QName(q int64) string { return fmt.Sprintf("q%02d", q) }
@@ -71,6 +75,7 @@ func vtC19QuotaExec(in []int64) []int64 {
 		return v
 	}
 	nq := int(next())
+	quotasFirst := next()
 	np := int(next())
 	quotaOf := make([]int64, np+1)
 	pending := make([]*v1.Pod, np+1)
@@ -136,13 +141,41 @@ func vtC19QuotaExec(in []int64) []int64 {
 		obs = vtC19QSnapshot(obs, live, nq, np, quotaOf)
 
 		fresh := vtC19QNew(nq)
+		known := make([]bool, nq+1)
+		if quotasFirst == 0 {
+			fresh = vtC19QNew(0)
+		} else {
+			for q := range known {
+				known[q] = true
+			}
+		}
 		seen := make([]bool, np+1)
 		deliver := func(ev step) {
 			id := int(ev.id)
+			if ev.kind == 6 {
+				if quotasFirst != 0 || id < 1 || id > nq || known[id] {
+					return
+				}
+				known[id] = true
+				if err := fresh.UpdateQuota(CreateQuota(vtC19QName(int64(id)), "koordinator-root-quota", 1<<20, 1<<50, 0, 0, true, false)); err != nil {
+					panic(err)
+				}
+				for u := 1; u <= np; u++ { // migrateDefaultQuotaGroupsPod
+					if quotaOf[u] == int64(id) && life[u] != 3 && life[u] != 9 {
+						if qi := fresh.GetQuotaInfoByName(extension.DefaultQuotaName); qi != nil && qi.IsPodExist(stored[u]) {
+							fresh.MigratePod(stored[u].DeepCopy(), extension.DefaultQuotaName, vtC19QName(int64(id)))
+						}
+					}
+				}
+				return
+			}
 			if id < 1 || id > np || life[id] == 3 || life[id] == 9 {
 				return
 			}
 			q := vtC19QName(quotaOf[id])
+			if !known[quotaOf[id]] {
+				q = extension.DefaultQuotaName
+			}
 			switch ev.kind {
 			case 1:
 				fresh.OnPodAdd(q, stored[id].DeepCopy())
@@ -156,6 +189,9 @@ func vtC19QuotaExec(in []int64) []int64 {
 		for _, ev := range script {
 			deliver(ev)
 		}
+		for q := 1; q <= nq; q++ {
+			deliver(step{6, int64(q)})
+		}
 		for u := 1; u <= np; u++ {
 			if !seen[u] {
 				deliver(step{1, int64(u)})
@@ -167,10 +203,14 @@ func vtC19QuotaExec(in []int64) []int64 {
 }
 
 func vtC19QuotaGen(r *rand.Rand, i int) (string, []int64) {
-	style := []string{"no-terminated", "no-terminated", "with-terminated"}[r.Intn(3)]
+	style := []string{"no-terminated", "no-terminated", "with-terminated", "quotas-late"}[r.Intn(4)]
 	nq := 1 + r.Intn(3)
 	np := 2 + r.Intn(4)
-	in := []int64{int64(nq), int64(np)}
+	first := int64(1)
+	if style == "quotas-late" {
+		first = 0
+	}
+	in := []int64{int64(nq), first, int64(np)}
 	for u := 1; u <= np; u++ {
 		cpu := int64(r.Intn(5)) * 500
 		if r.Intn(5) == 0 {
@@ -234,6 +274,13 @@ func vtC19QuotaGen(r *rand.Rand, i int) (string, []int64) {
 	}
 	for k := r.Intn(4); k > 0; k-- {
 		script = append(script, [2]int64{int64(1 + r.Intn(3)), int64(1 + r.Intn(np))})
+	}
+	if style == "quotas-late" {
+		for q := 1; q <= nq; q++ {
+			if r.Intn(3) != 0 {
+				script = append(script, [2]int64{6, int64(q)})
+			}
+		}
 	}
 	r.Shuffle(len(script), func(a, b int) { script[a], script[b] = script[b], script[a] })
 	in = append(in, int64(len(script)))
